@@ -173,8 +173,8 @@ func TestVerifC19Legacy(t *testing.T) {
 			out.Write(map[string]interface{}{"ev": "refuse", "status": w.Code, "panic": panicked})
 			continue
 		}
-		obs, where := vC19Observe(reqs, toks)
-		out.Write(map[string]interface{}{"ev": "forward", "obs": obs, "where": where, "nreq": len(reqs)})
+		obs := vC19Observe(reqs, toks)
+		out.Write(map[string]interface{}{"ev": "forward", "obs": obs, "nreq": len(reqs)})
 	}
 	fmt.Println("VERIF-DRIVER-DONE scenarios:", len(scns), "handled locally:", local)
 }
